@@ -209,6 +209,24 @@ class C15(Property):
         ia.refine_droplet = H._orig_refine
         ser = ia.refine_droplets(field, as_given(cands), num_processes=1, **(kw_fresh()["refine_args"] or {}))
         ctx.require(em_records(lst) == em_records(ser), f"refine_droplets:parallel-differs:procs={nproc}", f"refine_droplets(num_processes={nproc}) differs from the serial list (completion ranks {ranks})")
+        # rough initial guesses: diffuse candidates displaced by more than their radius (whatever the fit makes of them, it is the same
+        # serially and in parallel)
+        from droplets import DiffuseDroplet
+
+        def rough():
+            out = []
+            for k, c in enumerate(cands):
+                g = DiffuseDroplet.from_droplet(c, interface_width=1.0) if not isinstance(c, DiffuseDroplet) else c.copy()
+                p = np.array(g.position, float)
+                p[k % len(p)] += (1.3 if k % 2 else -1.6) * float(g.radius)
+                g.position = p
+                out.append(g)
+            return out
+
+        if cands and spec["modes"] == 0:
+            o_ser = outcome(lambda: ia.refine_droplets(field, rough(), num_processes=1, **(kw_fresh()["refine_args"] or {})))
+            o_par = outcome(lambda: ia.refine_droplets(field, rough(), num_processes=nproc, **(kw_fresh()["refine_args"] or {})))
+            ctx.require(o_ser == o_par, f"refine_droplets:parallel-differs:rough-candidates:procs={nproc}", "refine_droplets on rough diffuse candidates: the parallel result differs from the serial one")
 
     def _storage(self, spec, ctx, grid, nproc, order, ia):
         from pde import MemoryStorage
